@@ -12,25 +12,31 @@ import pv
 
 
 def placement_test():
-    from pv.vloop import VLoop, DELTA, EPS
+    from pv.vloop import VLoop, EPS, BEFORE, AFTER
 
     res = {}
-    for name, off in (("d-eps", -EPS), ("d-delta", -DELTA), ("d+delta", DELTA), ("d+eps", EPS)):
+    for name, off, rank in (("d-eps", -EPS, BEFORE), ("d:before", 0.0, BEFORE), ("d:after", 0.0, AFTER), ("d+eps", EPS, BEFORE)):
         loop = VLoop()
         asyncio.set_event_loop(loop)
         log = []
         d = 3.0
-        loop.call_at(d, lambda: log.append(("timer", loop.iteration)))
-        loop.call_at(d + off, lambda: log.append(("ext", loop.iteration)))
+        # several ordinary timers with the same deadline, pushed around the scripted action
+        loop.call_at(d, lambda: log.append(("timer", loop.iteration, loop.time())))
+        loop.call_at_ranked(d + off, rank, lambda: log.append(("ext", loop.iteration, loop.time())))
+        loop.call_at(d, lambda: log.append(("timer", loop.iteration, loop.time())))
+        loop.call_at(d, lambda: log.append(("timer", loop.iteration, loop.time())))
         loop.run_until(10.0)
         loop.shutdown()
         asyncio.set_event_loop(None)
         res[name] = log
+    kinds = {k: [x[0] for x in v] for k, v in res.items()}
+    its = {k: [x[1] for x in v] for k, v in res.items()}
     ok = (
-        [x[0] for x in res["d-eps"]] == ["ext", "timer"] and res["d-eps"][0][1] < res["d-eps"][1][1]
-        and [x[0] for x in res["d-delta"]] == ["ext", "timer"] and res["d-delta"][0][1] == res["d-delta"][1][1]
-        and [x[0] for x in res["d+delta"]] == ["timer", "ext"] and res["d+delta"][0][1] == res["d+delta"][1][1]
-        and [x[0] for x in res["d+eps"]] == ["timer", "ext"] and res["d+eps"][0][1] < res["d+eps"][1][1]
+        kinds["d-eps"] == ["ext", "timer", "timer", "timer"] and its["d-eps"][0] < its["d-eps"][1]
+        and kinds["d:before"] == ["ext", "timer", "timer", "timer"] and len(set(its["d:before"])) == 1
+        and kinds["d:after"] == ["timer", "timer", "timer", "ext"] and len(set(its["d:after"])) == 1
+        and kinds["d+eps"] == ["timer", "timer", "timer", "ext"] and its["d+eps"][2] < its["d+eps"][3]
+        and all(x[2] == 3.0 for x in res["d:before"] + res["d:after"])
     )
     return ok, res
 
